@@ -599,6 +599,51 @@ def Op.keepsCache : Op → Bool
   | .mmForFile _ kw => kw == 0
   | _ => true
 
+/-! ### `*_for_file` and the cache, read off the history
+
+`UniqueMatch E l f d` — among the languages `l`, `d` is the one whose pattern
+accepts `f` (what `language_for_file` needs to succeed).  `Op.spares E k l op` —
+the call `op`, made when the live languages are `l`, cannot replace the cache
+entry kept under the folded name `k`: it is not a clear, and if it carries
+keyword arguments it resolves to another name (`metamodel_for_language`) or
+does not resolve to a single language of that name (`metamodel_for_file`).
+`sparesAll` walks a history with `liveStep`.  All three are computable and
+mention neither the machine state nor `step`. -/
+
+def UniqueMatch (E : Env) (l : List LangDesc) (f : String) (d : LangDesc) : Prop :=
+  d ∈ l ∧ patMatches E f d = true ∧ ∀ d', d' ∈ l → patMatches E f d' = true → d' = d
+
+/-- Boolean form of `∃ d, UniqueMatch E l f d ∧ E.lower d.name = k` -/
+def resolvesTo (E : Env) (l : List LangDesc) (f : String) (k : String) : Bool :=
+  l.any fun d => patMatches E f d && E.lower d.name == k &&
+    l.all fun d' => !patMatches E f d' || d' == d
+
+def Op.spares (E : Env) (k : String) (l : List LangDesc) : Op → Bool
+  | .clearLangs => false
+  | .mmLang n kw => kw == 0 || E.lower n != k
+  | .mmForFile f kw => kw == 0 || !resolvesTo E l f k
+  | _ => true
+
+def sparesAll (E : Env) (k : String) : List LangDesc → List Op → Bool
+  | _, [] => true
+  | l, op :: ops => op.spares E k l && sparesAll E k (liveStep E l op) ops
+
+/-- a meta-model source `metamodel_for_language` can answer from: an instance or
+a factory producing meta-models -/
+def MMSrc.usable : MMSrc → Bool
+  | .inst _ => true
+  | .factory => true
+  | _ => false
+
+/-- two lists of the same length whose elements are related position by position -/
+def AllPairs {α β : Type} (R : α → β → Prop) : List α → List β → Prop
+  | [], [] => True
+  | a :: as, b :: bs => R a b ∧ AllPairs R as bs
+  | _, _ => False
+
+/-- the argument-less `metamodel_for_language` calls `metamodels_for_file` makes for the languages `ds` -/
+def mmCalls (ds : List LangDesc) : List Op := ds.map fun d => .mmLang d.name 0
+
 /-- what the specification assumes about the environment -/
 structure Env.Ok (E : Env) : Prop where
   /-- lower-casing twice is lower-casing once -/
